@@ -187,11 +187,17 @@ func specItemType(b []byte, acc protowire.Number) protowire.Number {
 // @ props C47
 // @ mode int
 // @ abstract protowire.specVarintLen protowire.specVarintVal protowire.specTagLen protowire.specBytesLen protowire.specValueLen
+// @ loop 1 split
 // @ site m0 := message[nn:]: nn == protowire.SpecVarintLen(message)
 // @ loop 1 invariant suffixOf(b, old(b)) && ilen == len(old(b))
 // @ loop 1 invariant 0 <= typeid && typeid <= math.MaxInt32
 // @ loop 1 invariant message == nil || freshSlice(message) || (sameBase(message, old(b)) && cap(message) == len(message))
 // @ loop 1 invariant imp(wantLen && message != nil, len(message) >= 1)
+// @ loop 1 invariant imp(wantLen && message != nil, protowire.SpecBytesLen(message) == len(message))
+// @ site-lemma message = b[:n:n]: protowire.Lemma_BytesLenPrefix(b)
+// @ site-lemma _, nn := protowire.ConsumeVarint(message): protowire.Lemma_BytesLenPrefix(message)
+// @ site-lemma-after message = protowire.AppendVarint(message, 0): protowire.Lemma_BytesLenEncoded(message, 0)
+// @ site-lemma-after#1 message = append(message, m...): protowire.Lemma_BytesLenEncoded(message, uint64(len(m0)+len(m)))
 // @ loop 1 invariant imp(specItemLen(b) < 0, specItemLen(old(b)) == specItemLen(b))
 // @ loop 1 invariant imp(specItemLen(b) >= 0, specItemLen(old(b)) == ilen-len(b)+specItemLen(b))
 // @ loop 1 invariant imp(specItemLen(b) >= 0, specItemType(old(b), 0) == specItemType(b, typeid))
@@ -206,6 +212,9 @@ func contract_ConsumeFieldValue(b []byte, wantLen bool) (typeid protowire.Number
 	ensures(imp(err == nil, 1 <= n && n <= len(b)))
 	ensures(imp(err == nil, 0 <= typeid && typeid <= math.MaxInt32))
 	ensures(imp(err == nil && wantLen, len(message) >= 1))
+	// with wantLen the result is one complete length-delimited value (prefix = length of the rest),
+	// also when several message subfields were merged
+	ensures(imp(err == nil && wantLen, protowire.SpecBytesLen(message) == len(message)))
 	// the encoder's form is accepted and decoded exactly
 	ensures(imp(specItemCanon(b), err == nil && typeid == specItemT(b) && n == specItemQ(b)+1 && specItemMsg(message, b, wantLen)))
 	// the input buffer is never written (no modifies clause) and the result is a capacity-limited
